@@ -23,7 +23,8 @@ request                                                         reply
          (`ntrim` zero-stiffness boundary DOF trimmed by `_cbcoordchk`; `null`/`ml` the two `pv` lists `_solve_eig` prints)
          with `chk` = `pass`/`fail`/`single` (refpoint check; `single` when there is no other DOF),
          or `raise-refpoint` when a reference DOF has zero stiffness, `raise-singular` when a node's
-         translation block is singular (zero-stiffness translation), `raise-usetrows` / `raise-notascending` (ValueError)
+         translation block is singular (zero-stiffness translation), `raise-usetrows` / `raise-notascending` (ValueError),
+         `raise-emfilt-empty` (IndexError: positive em_filt, no mode above it)
 `solveeig n nb p bset… M(n n) K(n n) V(n p)`
       → `n1 nx nzm keep(n1) xs(nx) zs(nzm) bflag(nx) kred(nx nx) mred(nx nx) psi(nzm nx) presid V'(n p)`
          (`V'` = the rows of `V` on the DOF with mass, expanded back by the model)
@@ -217,6 +218,7 @@ def doCbcheck : P String := do
   let out ← match cbcheckWith memoF n M0 K0 bl bref0.toList usetN u0 isC0 isS0 uref opts twoPi 100 with
     | .error .usetRows => return "raise-usetrows"
     | .error .notAscending => return "raise-notascending"
+    | .error .emFiltEmpty => return "raise-emfilt-empty"
     | .ok o => pure o
   let M2 := out.m; let K2 := out.k
   let M2a := tab n n M2; let K2a := tab n n K2
